@@ -69,7 +69,7 @@ cholmod_tril(int dim, cholmod_common *c)
 static double
 bspline(const double *knots, double x, int i, int n)
 {
-	double result;
+	double a = 0, b = 0;
 	
 	if (n == 0) {
 		/*
@@ -83,12 +83,20 @@ bspline(const double *knots, double x, int i, int n)
 			return 0.0;
 	}
 	
-	result = (x - knots[i])*bspline(knots, x, i, n-1) /
-	(knots[i+n] - knots[i]);
-	result += (knots[i+n+1] - x)*bspline(knots, x, i+1, n-1) /
-	(knots[i+n+1] - knots[i+1]);
+	/*
+	 * Cox-de Boor recursion. A term whose denominator vanishes
+	 * (repeated knots) belongs to a basis function of lower order with
+	 * empty support and is dropped, as is conventional; evaluating it
+	 * would give 0/0.
+	 */
+	if (knots[i+n] != knots[i])
+		a = (x - knots[i])*bspline(knots, x, i, n-1) /
+		    (knots[i+n] - knots[i]);
+	if (knots[i+n+1] != knots[i+1])
+		b = (knots[i+n+1] - x)*bspline(knots, x, i+1, n-1) /
+		    (knots[i+n+1] - knots[i+1]);
 	
-	return result;
+	return a + b;
 }
 
 cholmod_sparse*
